@@ -5,10 +5,150 @@ PROP = "C05"
 LEVEL = "proof"
 RULE = ("random multifurcating trees (3..14 tips, rooted/unrooted, parent slot at random positions as after earlier "
         "re-rootings, lengths present/zero), every op of {reroot at each pre-order node index incl. tips and out of range, "
-        "unroot, rotate with a recorded rand stream, sort}; a case is non-trivial when the operation changed the structure; "
-        "distinct = distinct case text")
+        "unroot, rotate with a recorded rand stream, sort}; "
+        "outgroup / midpoint: trees with a length on every branch (3..12 tips, root with >= 2 neighbours, rooted/unrooted/"
+        "multifurcating, parent slots anywhere; length styles: random with zeros, half zero, all zero, all equal (ties), "
+        "small integers (ties), a few with missing lengths or duplicated node names for the refusals), midpoint once per tree, "
+        "outgroups = clade / complement of a clade / single tip / all but one tip / several-but-not-all children of a "
+        "multifurcation / random subset / with absent names, inner-node names and repeated names / only absent names / "
+        "all tips / empty list, x remove x strict; thorough tier adds every tip subset of trees with <= 6 tips; "
+        "a case is non-trivial when the operation changed the structure; distinct = distinct case text")
 TRUSTED = ["tree built through NewNode/NewEdge + verif hooks (exact neighbour order); dump through Neigh()/Edges()/Left()/Right()"]
 ASSUMPTIONS = ["math/rand: Intn/Int31n transcribed in Model/Rand.v; the recorded Int63 stream is what the code under test consumes"]
+
+# ---------------------------------------------------------------- helpers on node dicts
+
+def all_edges(t):
+    for e, c in kids(t):
+        yield e, c
+        yield from all_edges(c)
+
+def inner_clades(t):
+    """leaf sets below every non-root node that is not a tip"""
+    out = []
+    for e, c in all_edges(t):
+        if kids(c):
+            out.append(leaves(c))
+    return out
+
+def multifurcations(t, top=True):
+    """lists of child leaf sets of every node seen as unrooted: a node's neighbours are its children + (the rest)"""
+    out = []
+    allv = leaves(t)
+    def rec(n, is_root):
+        ch = [leaves(c) for _, c in kids(n)]
+        if not is_root and ch:
+            below = [x for l in ch for x in l]
+            ch = ch + [[x for x in allv if x not in below]]
+        if len(ch) >= 4:
+            out.append(ch)
+        for _, c in kids(n):
+            rec(c, False)
+    rec(t, True)
+    return out
+
+def restyle(rng, t, style):
+    """rewrite the branch lengths of a tree in place"""
+    for e, c in all_edges(t):
+        if style == "halfzero":
+            e["len"] = Fraction(0) if rng.random() < 0.5 else Fraction(rng.randrange(1, 129), 64)
+        elif style == "allzero":
+            e["len"] = Fraction(0)
+        elif style == "equal":
+            e["len"] = Fraction(1)
+        elif style == "smallint":
+            e["len"] = Fraction(rng.randrange(0, 3))
+        elif style == "tipszero":
+            e["len"] = Fraction(0) if not kids(c) and rng.random() < 0.8 else Fraction(rng.randrange(0, 4), 2)
+    if style == "single":
+        # a node with a single child (two neighbours) in the middle of a random branch
+        par = rng.choice([x for x in preorder(t) if kids(x)])
+        i = rng.choice([i for i, s in enumerate(par["slots"]) if s is not None])
+        e, c = par["slots"][i]
+        e2 = {"len": Fraction(rng.randrange(0, 65), 64), "sup": None, "pv": None, "coms": []}
+        mid = {"name": "", "coms": [], "slots": [None, (e2, c)] if rng.random() < 0.5 else [(e2, c), None]}
+        par["slots"][i] = (e, mid)
+    return t
+
+def outgroups(rng, t, tier):
+    """(kind, names) pairs"""
+    L = leaves(t)
+    n = len(L)
+    out = []
+    cl = inner_clades(t)
+    if cl:
+        c = rng.choice(cl)
+        out.append(("clade", list(c)))
+        c = rng.choice(cl)
+        out.append(("coclade", [x for x in L if x not in c]))
+    a = rng.choice(L)
+    out.append(("tip", [a]))
+    a = rng.choice(L)
+    out.append(("cotip", [x for x in L if x != a]))
+    mf = multifurcations(t)
+    if mf:
+        ch = rng.choice(mf)
+        k = rng.randrange(2, len(ch) - 1)
+        sel = rng.sample(ch, k)
+        out.append(("multi", [x for l in sel for x in l]))
+    k = rng.randrange(2, n) if n > 2 else 1
+    out.append(("subset", rng.sample(L, k)))
+    # decorated variants
+    base = rng.choice(out)[1]
+    inner = [x["name"] for x in preorder(t) if x["name"] and kids(x)]
+    extra = ["zz%d" % rng.randrange(3)] + ([rng.choice(inner)] if inner and rng.random() < 0.5 else [])
+    if rng.random() < 0.5:
+        extra.append(rng.choice(base))
+    dec = list(base) + extra
+    rng.shuffle(dec)
+    out.append(("decorated", dec))
+    r = rng.random()
+    if r < 0.25:
+        out.append(("absent", ["zz1", "zz2"] + ([rng.choice(inner)] if inner else [])))
+    elif r < 0.5:
+        out.append(("all", list(L)))
+    elif r < 0.65:
+        out.append(("empty", []))
+    return out
+
+def root_cases(rng, t, style, tier, exhaustive=False):
+    L = leaves(t)
+    rooted = len(t["slots"]) == 2
+    meta = {"ntips": len(L), "rooted": rooted, "lens": style}
+    out = [({"op": Sym("midpoint"), "tree": T(t)}, dict(meta, op="midpoint"))]
+    if exhaustive:
+        from itertools import combinations
+        og = [("exh", list(c)) for k in range(1, len(L) + 1) for c in combinations(L, k)]
+        flags = [(r, s) for r in (False, True) for s in (False, True)]
+    else:
+        og = outgroups(rng, t, tier)
+        flags = None
+    for kind, names in og:
+        for remove, strict in (flags or [(rng.random() < 0.3, rng.random() < 0.4)]):
+            out.append(({"op": Sym("outgroup"), "tree": T(t), "names": list(names), "remove": remove, "strict": strict},
+                        dict(meta, op="outgroup", og=kind, remove=remove, strict=strict)))
+    return out
+
+STYLES = ["random", "random", "random", "halfzero", "halfzero", "tipszero", "allzero", "equal", "smallint", "smallint", "missing", "dupnames", "single"]
+
+def root_trees(rng, g, n, hi):
+    for i in range(n):
+        style = STYLES[i % len(STYLES)] if i < 2 * len(STYLES) else rng.choice(STYLES)
+        t = g.tree(lo=3, hi=hi, maxdeg=5, lenmode="mixed" if style == "missing" else "all",
+                   supmode="mixed", inner_names=rng.random() < 0.3 or style == "dupnames", comments=rng.random() < 0.2,
+                   up_random=rng.random() < 0.6)
+        if style not in ("random", "missing", "dupnames"):
+            restyle(rng, t, style)
+        if style == "dupnames":
+            inner = [x for x in preorder(t) if kids(x)]
+            x = rng.choice(inner)
+            r = rng.random()
+            if r < 0.5:
+                x["name"] = rng.choice(leaves(t))          # an inner node named like a tip
+            elif len(inner) > 1:
+                y = rng.choice([z for z in inner if z is not x])
+                x["name"] = y["name"] = "dup"               # two inner nodes with the same name
+        yield t, style
 
 def gen(rng, tier):
     g = Gen(rng)
@@ -28,4 +168,104 @@ def gen(rng, tier):
         ops.append({"op": Sym("sort"), "tree": T(t)})
         for o in ops:
             out.append({"sx": sx(o), "meta": {"op": o["op"].s, "ntips": len(leaves(t)), "rooted": rooted}})
+    # rooting on an outgroup / at the midpoint
+    m = {"quick": 110, "thorough": 3000, "search": 300}[tier]
+    for t, style in root_trees(rng, g, m, 12 if tier != "thorough" else 24):
+        for o, meta in root_cases(rng, t, style, tier):
+            out.append({"sx": sx(o), "meta": meta})
+    # every tip subset of small trees, both flags
+    m = {"quick": 4, "thorough": 150, "search": 10}[tier]
+    for t, style in root_trees(rng, g, m, 5 if tier == "quick" else 6):
+        for o, meta in root_cases(rng, t, style, tier, exhaustive=True):
+            out.append({"sx": sx(o), "meta": meta})
     return out
+
+# ---------------------------------------------------------------- matchers for known findings
+# a case: {"sx": case text, "kind": verdict kind, "fields": [message, ...], "obs": ..., "meta": ...}
+
+def _case(case):
+    try:
+        a = alist(parse_sexp(case["sx"]))
+        t = sx_to_tree(a["tree"])
+        return a, t
+    except Exception:
+        return None, None
+
+def _msg(case):
+    f = case.get("fields") or []
+    return " ".join(str(x) for x in f)
+
+def _lens(t):
+    return [e["len"] for e, _ in all_edges(t)]
+
+def _sides(t):
+    """{frozenset(side): merged length or None} for every branch, both sides as keys; branches defining the same
+    bipartition (the two root branches of a rooted tree) are merged: sum of the present lengths, None if none is present"""
+    allv = frozenset(leaves(t))
+    m = {}
+    for e, c in all_edges(t):
+        s = frozenset(leaves(c))
+        for k in (s, allv - s):
+            if k and k != allv:
+                if k not in m:
+                    m[k] = e["len"]
+                elif e["len"] is not None:
+                    m[k] = (m[k] or 0) + e["len"]
+    return m
+
+def _obs_tree(case):
+    try:
+        o = alist(parse_sexp(case["obs"]))
+        return sx_to_tree(o["tree"])
+    except Exception:
+        return None
+
+def _present(a, t):
+    L = set(leaves(t))
+    return frozenset(x for x in a.get("names", []) if x in L)
+
+def m_midpoint_allzero(case):
+    a, t = _case(case)
+    return bool(a) and a.get("op") == "midpoint" and "panic" in _msg(case) and all(l == 0 for l in _lens(t))
+
+def m_midpoint_zero_far_end(case):
+    a, t = _case(case)
+    if not a or a.get("op") != "midpoint":
+        return False
+    ls = _lens(t)
+    return any(l == 0 for l in ls) and not all(l == 0 for l in ls) and all(l is not None for l in ls) and \
+        ("halfway" in _msg(case) or "path length changed" in _msg(case) or "split length changed" in _msg(case))
+
+def m_outgroup_zero_cut(case):
+    """the branch that was cut had length 0 and both halves come back without a length"""
+    a, t = _case(case)
+    if not a or a.get("op") != "outgroup" or a.get("remove") != "F":
+        return False
+    g = _obs_tree(case)
+    if g is None or len(kids(g)) != 2 or any(e["len"] is not None for e, _ in kids(g)):
+        return False
+    side = frozenset(leaves(kids(g)[0][1]))
+    return _sides(t).get(side, 1) == 0 and \
+        ("split length changed" in _msg(case) or "equal halves" in _msg(case))
+
+def m_outgroup_remove_nonmono(case):
+    a, t = _case(case)
+    if not a or a.get("op") != "outgroup" or a.get("remove") != "T" or a.get("strict") != "F":
+        return False
+    P = _present(a, t)
+    return bool(P) and P not in _sides(t) and "old tips minus the outgroup" in _msg(case)
+
+def m_outgroup_nonstrict_refused(case):
+    a, t = _case(case)
+    if not a or a.get("op") != "outgroup" or a.get("strict") != "F":
+        return False
+    P = _present(a, t)
+    return bool(P) and P not in _sides(t) and "refused in non-strict mode" in _msg(case)
+
+MATCHERS = {
+    "C05-midpoint-all-zero-panic": m_midpoint_allzero,
+    "C05-midpoint-zero-length-far-end": m_midpoint_zero_far_end,
+    "C05-outgroup-zero-length-cut": m_outgroup_zero_cut,
+    "C05-outgroup-remove-nonmonophyletic": m_outgroup_remove_nonmono,
+    "C05-outgroup-nonstrict-multifurcation-refused": m_outgroup_nonstrict_refused,
+}
